@@ -236,9 +236,9 @@ func cliSuite(full bool) hlib.Suite {
 
 func suites(tier string) []hlib.Suite {
 	if tier == "quick" {
-		return []hlib.Suite{verdictSuite(8), spotSuite(), cliSuite(false)}
+		return []hlib.Suite{verdictSuite(20), spotSuite(), cliSuite(false)}
 	}
-	return []hlib.Suite{verdictSuite(20), spotSuite(), cliSuite(true)}
+	return []hlib.Suite{verdictSuite(40), spotSuite(), cliSuite(true)}
 }
 
 // spotSuite: the non-integral percentages the small grid cannot reach.
